@@ -1,7 +1,7 @@
 (* Lemmas about the glue model (PyGlueModel.v).  The property theorems are in C17.v. *)
 From Coq Require Import List ZArith Bool Lia.
 From LMBase Require Import ListX IEEE.
-From LMPyGlue Require Import PyGlueModel.
+From LMPyGlue Require Import PyGlueModel PyGlueFloat.
 Import ListNotations.
 Open Scope Z_scope.
 
@@ -416,8 +416,11 @@ Section WithCore.
 
   (* ---------------------------------------------------------------- panics only come from the core *)
 
-  (* the core library never panics, and the operations whose Rust type is not a Result
-     always return a value *)
+  (* LEGACY (rounds 1-3): unconditional totality of every core operation.  No faithful core satisfies
+     it (the real scoring pipeline panics without look-ahead rows, the score distribution on NaN, TFM-PVALUE
+     on non-finite matrices, ...): theorems under this hypothesis say nothing about the real library.
+     Kept only because it implies the guarded record below ([core_total_guarded]); the theorems of C17.v
+     use [core_guarded]. *)
   Record core_total : Prop := {
     ct_count_new : forall a m, c_count_new K a m <> CPanic;
     ct_encode_ok : forall a s, c_encode_ok K a s <> CPanic;
@@ -445,14 +448,106 @@ Section WithCore.
     ct_read : forall f a bs, ~ In (RPanic CM FM) (c_read K f a bs)
   }.
 
+  (* GUARDED totality: each core operation returns a value exactly under the precondition the glue has
+     established when it calls it - nothing is promised outside.  [wrap_ok s q]: the sequence q carries
+     the look-ahead rows the matrix s needs (what configure establishes).
+       score            not empty, wrap_ok                       (ensure_not_empty; configure first)
+       scan             no NaN, not empty, wrap_ok, block size > 0    (ensure_ordered(false), ensure_not_empty,
+                                                                  configure first, block_size check)
+       configure        not empty                                (M - 1 underflows on an empty matrix)
+       max_score        no NaN                                   (ensure_ordered(false))
+       distribution     no NaN, no +inf, not empty, a finite cell (ensure_ordered(true)); the score asked
+                        for is not NaN, the p-value lies in [0, 1]
+       TFM-PVALUE       finite symbol scores, not empty (ensure_finite); the score is neither NaN nor
+                        infinite, the p-value lies in [0, 1]
+       to_scoring       the base is finite, positive and different from one
+     The remaining operations are total in the library whatever they are given (constructors returning
+     Result, conversions on well-typed values, max / argmax / threshold of a score vector). *)
+  (* [sm_ty s a] / [sq_ty q a]: the scoring matrix s / the sequence q is a value of alphabet a.  The Rust types
+     ScoringMatrix<A>, StripedSequence<A> make a call with two alphabets impossible; the glue model carries the
+     alphabet as a label next to the (untyped) core value, so the promise for score / scan is made for values of
+     the same alphabet only.  Instantiate both with [fun _ _ => True] for a core that does not care. *)
+  Record core_guarded (sm_ty : SM -> abc -> Prop) (sq_ty : SQ -> abc -> Prop) (wrap_ok : SM -> SQ -> Prop) : Prop := {
+    cg_count_new : forall a m, c_count_new K a m <> CPanic;
+    cg_encode_ok : forall a s, c_encode_ok K a s <> CPanic;
+    cg_from_seqs : forall a l, c_from_seqs K a l <> CPanic;
+    cg_bg_new : forall a p, c_bg_new K a p <> CPanic;
+    cg_stripe : forall a s, c_stripe K a s <> CPanic;
+    cg_to_freq : forall c p, exists v, c_to_freq K c p = COk v;
+    cg_to_weight : forall f, exists v, c_to_weight K f = COk v;
+    cg_rescale : forall w g, exists v, c_rescale K w g = COk v;
+    cg_to_scoring_base : forall w b, base_invalid b = false -> exists v, c_to_scoring_base K w b = COk v;
+    cg_scoring_new : forall a g m, exists v, c_scoring_new K a g m = COk v;
+    cg_revcomp : forall s, exists v, c_revcomp K s = COk v;
+    cg_max_score : forall s, ordered_ok false (c_sm_cells K s) = true -> exists v, c_max_score K s = COk v;
+    cg_configure : forall q s, sm_empty (c_sm_cells K s) = false -> exists q', c_configure K q s = COk q';
+    cg_conf_ok : forall q s q', c_configure K q s = COk q' -> wrap_ok s q';
+    cg_conf_ty : forall a q s q', c_configure K q s = COk q' -> sq_ty q a -> sq_ty q' a;
+    cg_score : forall a s q, sm_ty s a -> sq_ty q a -> sm_empty (c_sm_cells K s) = false -> wrap_ok s q ->
+               exists v, c_score K s q = COk v;
+    cg_threshold : forall sc t, exists v, c_threshold K sc t = COk v;
+    cg_max : forall sc, exists v, c_max K sc = COk v;
+    cg_argmax : forall sc, exists v, c_argmax K sc = COk v;
+    cg_dist_pvalue : forall s x, ordered_ok true (c_sm_cells K s) = true -> f32_is_nan x = false ->
+                     exists v, c_dist_pvalue K s x = COk v;
+    cg_dist_score : forall s p, ordered_ok true (c_sm_cells K s) = true -> pvalue_in_range p = true ->
+                    exists v, c_dist_score K s p = COk v;
+    cg_tfm_pvalue : forall s x, finite_ok (c_sm_cells K s) = true -> f64_is_nan x = false -> f64_is_inf x = false ->
+                    exists v, c_tfm_pvalue K s x = COk v;
+    cg_tfm_score : forall s p, finite_ok (c_sm_cells K s) = true -> pvalue_in_range p = true ->
+                   exists v, c_tfm_score K s p = COk v;
+    cg_scan : forall a s q t b, sm_ty s a -> sq_ty q a ->
+              ordered_ok false (c_sm_cells K s) = true -> sm_empty (c_sm_cells K s) = false ->
+              wrap_ok s q -> 0 < b -> exists v, c_scan K s q t b = COk v;
+    cg_dist_sf : forall s, ordered_ok true (c_sm_cells K s) = true -> exists v, c_dist_sf K s = COk v;
+    cg_read : forall f a bs, ~ In (RPanic CM FM) (c_read K f a bs)
+  }.
+
+  (* the legacy hypothesis is the special case in which nothing needs a guard *)
+  Lemma core_total_guarded : core_total -> core_guarded (fun _ _ => True) (fun _ _ => True) (fun _ _ => True).
+  Proof.
+    intros CT. constructor; intros; try exact I;
+      first [ apply (ct_count_new CT) | apply (ct_encode_ok CT) | apply (ct_from_seqs CT) | apply (ct_bg_new CT)
+            | apply (ct_stripe CT) | apply (ct_to_freq CT) | apply (ct_to_weight CT) | apply (ct_rescale CT)
+            | apply (ct_to_scoring_base CT) | apply (ct_scoring_new CT) | apply (ct_revcomp CT)
+            | apply (ct_max_score CT) | apply (ct_configure CT) | apply (ct_score CT) | apply (ct_threshold CT)
+            | apply (ct_max CT) | apply (ct_argmax CT) | apply (ct_dist_pvalue CT) | apply (ct_dist_score CT)
+            | apply (ct_tfm_pvalue CT) | apply (ct_tfm_score CT) | apply (ct_scan CT) | apply (ct_dist_sf CT)
+            | apply (ct_read CT) ].
+  Qed.
+
   Lemma lift_np {A} e (r : cres A) : r <> CPanic -> lift e r <> Panic.
   Proof. destruct r; simpl; intros H; try discriminate. congruence. Qed.
 
   Lemma liftp_np {A} (r : cres A) : (exists v, r = COk v) -> liftp r <> Panic.
   Proof. intros [v ->]. discriminate. Qed.
 
+  Lemma base_two_valid : base_invalid f32_two = false.
+  Proof. vm_compute. reflexivity. Qed.
+
+  Lemma extract_usize_range v z : extract_usize v = Value z -> 0 <= z.
+  Proof.
+    destruct v; simpl; try discriminate.
+    - destruct b; intros H; inversion H; lia.
+    - destruct (_ && _) eqn:E; [|discriminate]. intros H. inversion H; subst.
+      apply andb_true_iff in E. destruct E as [E _]. apply Z.leb_le in E. exact E.
+  Qed.
+
+  (* the block size handed to the scanner is a usize different from zero *)
+  Lemma glue_scan_args_block thr bs t b : glue_scan_args thr bs = Value (t, b) -> 0 < b.
+  Proof.
+    unfold glue_scan_args. intros H.
+    apply obind_inv_value in H. destruct H as [t0 [_ H]].
+    apply obind_inv_value in H. destruct H as [b0 [Hb H]].
+    destruct (b0 =? 0) eqn:E; [discriminate|]. inversion H; subst. apply Z.eqb_neq in E.
+    assert (0 <= b) by (destruct bs as [v|]; [eapply extract_usize_range; exact Hb | inversion Hb; lia]). lia.
+  Qed.
+
   Section Total.
-    Hypothesis CT : core_total.
+    Variable sm_ty : SM -> abc -> Prop.
+    Variable sq_ty : SQ -> abc -> Prop.
+    Variable wrap_ok : SM -> SQ -> Prop.
+    Hypothesis CG : core_guarded sm_ty sq_ty wrap_ok.
 
     Ltac step := first
       [ discriminate
@@ -460,14 +555,11 @@ Section WithCore.
       | apply extract_f64_np | apply extract_f32_np | apply extract_u32_np | apply extract_usize_np
       | apply extract_str_np | apply extract_bool_np | apply extract_dict_np
       | apply d2a_loop_np
-      | apply lift_np; first [apply (ct_count_new CT) | apply (ct_encode_ok CT) | apply (ct_from_seqs CT)
-                             | apply (ct_bg_new CT) | apply (ct_stripe CT)]
-      | apply liftp_np; first [apply (ct_to_freq CT) | apply (ct_to_weight CT) | apply (ct_rescale CT)
-                              | apply (ct_to_scoring_base CT) | apply (ct_scoring_new CT) | apply (ct_revcomp CT)
-                              | apply (ct_max_score CT) | apply (ct_configure CT) | apply (ct_score CT)
-                              | apply (ct_threshold CT) | apply (ct_max CT) | apply (ct_argmax CT)
-                              | apply (ct_dist_pvalue CT) | apply (ct_dist_score CT) | apply (ct_tfm_pvalue CT)
-                              | apply (ct_tfm_score CT) | apply (ct_scan CT) | apply (ct_dist_sf CT)]
+      | apply lift_np; first [apply (cg_count_new _ _ _ CG) | apply (cg_encode_ok _ _ _ CG) | apply (cg_from_seqs _ _ _ CG)
+                             | apply (cg_bg_new _ _ _ CG) | apply (cg_stripe _ _ _ CG)]
+      | apply liftp_np; first [apply (cg_to_freq _ _ _ CG) | apply (cg_to_weight _ _ _ CG) | apply (cg_rescale _ _ _ CG)
+                              | apply (cg_scoring_new _ _ _ CG) | apply (cg_revcomp _ _ _ CG)
+                              | apply (cg_threshold _ _ _ CG) | apply (cg_max _ _ _ CG) | apply (cg_argmax _ _ _ CG)]
       | (apply obind_np; [|intros ? _]) ].
 
     Lemma glue_background_np a bg : glue_background K a bg <> Panic.
@@ -486,12 +578,14 @@ Section WithCore.
     Lemma glue_normalize_np a c pc : glue_normalize K a c pc <> Panic.
     Proof. unfold glue_normalize. repeat step. Qed.
 
+    (* uses the guard on the base: to_scoring_with_base is only asked for a valid base *)
     Lemma glue_log_odds_np a w bg base : glue_log_odds K a w bg base <> Panic.
     Proof.
       unfold glue_log_odds. apply obind_np; [destruct base; repeat step|]. intros b _.
-      destruct (base_invalid b); [discriminate|].
+      destruct (base_invalid b) eqn:Hb; [discriminate|].
       apply obind_np; [apply glue_background_np|]. intros g _.
-      apply obind_np; [destruct (f32s_eqb _ _); repeat step|]. intros w' _. repeat step.
+      apply obind_np; [destruct (f32s_eqb _ _); repeat step|]. intros w' _.
+      apply obind_np; [|discriminate]. apply liftp_np. apply (cg_to_scoring_base _ _ _ CG). exact Hb.
     Qed.
 
     Lemma glue_scoring_init_np values bg protein : glue_scoring_init K values bg protein <> Panic.
@@ -506,11 +600,20 @@ Section WithCore.
     Lemma glue_stripe_np sequence protein : glue_stripe K sequence protein <> Panic.
     Proof. unfold glue_stripe. repeat step. Qed.
 
-    Lemma glue_calculate_np a s aq q : fst (glue_calculate K a s aq q) <> Panic.
+    (* uses ensure_not_empty and the configure-before-score order: the score is asked for the
+       sequence configure returned, which satisfies wrap_ok *)
+    Lemma abc_eqb_eq a b : abc_eqb a b = true -> a = b.
+    Proof. destruct a, b; simpl; intros H; try discriminate; reflexivity. Qed.
+
+    Lemma glue_calculate_np a s aq q :
+      sm_ty s a -> sq_ty q aq -> fst (glue_calculate K a s aq q) <> Panic.
     Proof.
-      unfold glue_calculate. destruct (sm_empty _); [discriminate|].
-      destruct (abc_eqb a aq); [|discriminate].
-      destruct (ct_configure CT q s) as [q' ->]. cbn [fst]. repeat step.
+      intros Hs Hq0. unfold glue_calculate. destruct (sm_empty _) eqn:He; [discriminate|].
+      destruct (abc_eqb a aq) eqn:Ea; [|discriminate]. apply abc_eqb_eq in Ea. subst aq.
+      destruct (cg_configure _ _ _ CG q s He) as [q' Hq]. rewrite Hq. cbn [fst].
+      apply obind_np; [|discriminate]. apply liftp_np. apply (cg_score _ _ _ CG a); [exact Hs | | exact He |].
+      - eapply (cg_conf_ty _ _ _ CG); eauto.
+      - eapply (cg_conf_ok _ _ _ CG); exact Hq.
     Qed.
 
     Lemma glue_threshold_np sc t : glue_threshold K sc t <> Panic.
@@ -520,40 +623,69 @@ Section WithCore.
     Lemma glue_argmax_np sc : glue_argmax K sc <> Panic.
     Proof. unfold glue_argmax. repeat step. Qed.
 
+    (* uses the NaN / infinity check of the score, ensure_finite and ensure_ordered(true) *)
     Lemma glue_pvalue_np s x m : glue_pvalue K s x m <> Panic.
     Proof.
       unfold glue_pvalue. apply obind_np; [step|]. intros v _. apply obind_np; [step|]. intros mm _.
-      destruct (f64_is_nan v || _); [discriminate|].
-      destruct (zlist_eqb mm str_tfmpvalue); [destruct (finite_ok _); repeat step|].
-      destruct (zlist_eqb mm str_meme); [destruct (ordered_ok _ _); repeat step | discriminate].
+      destruct (f64_is_nan v || _) eqn:Hg; [discriminate|].
+      apply orb_false_iff in Hg. destruct Hg as [Hnan Hinf].
+      destruct (zlist_eqb mm str_tfmpvalue) eqn:Hm.
+      - rewrite andb_true_r in Hinf.
+        destruct (finite_ok _) eqn:Hf; [|discriminate].
+        apply obind_np; [|discriminate]. apply liftp_np. apply (cg_tfm_pvalue _ _ _ CG); assumption.
+      - destruct (zlist_eqb mm str_meme); [|discriminate].
+        destruct (ordered_ok _ _) eqn:Ho; [|discriminate].
+        apply obind_np; [|discriminate]. apply liftp_np. apply (cg_dist_pvalue _ _ _ CG); [exact Ho|].
+        apply f64_to_f32_not_nan. exact Hnan.
     Qed.
 
+    (* uses the range check of the p-value, ensure_finite and ensure_ordered(true) *)
     Lemma glue_score_np s x m : glue_score K s x m <> Panic.
     Proof.
       unfold glue_score. apply obind_np; [step|]. intros v _. apply obind_np; [step|]. intros mm _.
-      destruct (negb (pvalue_in_range v)); [discriminate|].
-      destruct (zlist_eqb mm str_tfmpvalue); [destruct (finite_ok _); repeat step|].
-      destruct (zlist_eqb mm str_meme); [destruct (ordered_ok _ _); repeat step | discriminate].
+      destruct (negb (pvalue_in_range v)) eqn:Hr; [discriminate|]. apply negb_false_iff in Hr.
+      destruct (zlist_eqb mm str_tfmpvalue).
+      - destruct (finite_ok _) eqn:Hf; [|discriminate].
+        apply obind_np; [|discriminate]. apply liftp_np. apply (cg_tfm_score _ _ _ CG); assumption.
+      - destruct (zlist_eqb mm str_meme); [|discriminate].
+        destruct (ordered_ok _ _) eqn:Ho; [|discriminate].
+        apply obind_np; [|discriminate]. apply liftp_np. apply (cg_dist_score _ _ _ CG); assumption.
     Qed.
 
+    (* uses ensure_ordered(false) *)
     Lemma glue_max_score_np s : glue_max_score K s <> Panic.
-    Proof. unfold glue_max_score. destruct (ordered_ok _ _); repeat step. Qed.
+    Proof.
+      unfold glue_max_score. destruct (ordered_ok _ _) eqn:Ho; [|discriminate].
+      apply obind_np; [|discriminate]. apply liftp_np. apply (cg_max_score _ _ _ CG). exact Ho.
+    Qed.
 
     Lemma glue_revcomp_np a s : glue_revcomp K a s <> Panic.
     Proof. unfold glue_revcomp. destruct a; repeat step. Qed.
 
-    Lemma glue_scan_np a s aq q t b : fst (glue_scan K a s aq q t b) <> Panic.
+    (* uses ensure_ordered(false), ensure_not_empty, configure-before-scan and the block size check *)
+    Lemma glue_scan_np a s aq q t b :
+      sm_ty s a -> sq_ty q aq -> 0 < b -> fst (glue_scan K a s aq q t b) <> Panic.
     Proof.
-      unfold glue_scan. destruct (negb _); [discriminate|]. destruct a, aq; try discriminate.
-      destruct (sm_empty _); [discriminate|].
-      destruct (ct_configure CT q s) as [q' ->]. cbn [fst]. repeat step.
+      intros Hs Hq0 Hb. unfold glue_scan. destruct (negb _) eqn:Ho; [discriminate|]. apply negb_false_iff in Ho.
+      destruct a, aq; try discriminate.
+      destruct (sm_empty _) eqn:He; [discriminate|].
+      destruct (cg_configure _ _ _ CG q s He) as [q' Hq]. rewrite Hq. cbn [fst].
+      apply obind_np; [|discriminate]. apply liftp_np. apply (cg_scan _ _ _ CG Dna); try assumption.
+      - eapply (cg_conf_ty _ _ _ CG); eauto.
+      - eapply (cg_conf_ok _ _ _ CG); exact Hq.
     Qed.
 
     Lemma motif_from_counts_np a nm k c : motif_from_counts K a nm k c <> Panic.
-    Proof. unfold motif_from_counts. repeat step. Qed.
+    Proof.
+      unfold motif_from_counts. repeat step.
+      apply liftp_np. apply (cg_to_scoring_base _ _ _ CG). exact base_two_valid.
+    Qed.
 
     Lemma motif_from_freq_np a nm k f : motif_from_freq K a nm k f <> Panic.
-    Proof. unfold motif_from_freq. repeat step. Qed.
+    Proof.
+      unfold motif_from_freq. repeat step.
+      apply liftp_np. apply (cg_to_scoring_base _ _ _ CG). exact base_two_valid.
+    Qed.
 
     Lemma create_loop_np a items : create_loop K a items <> Panic.
     Proof. induction items as [|v r IH]; [discriminate|]. cbn [create_loop]. repeat step. exact IH. Qed.
@@ -610,12 +742,26 @@ Section WithCore.
     Lemma glue_copy_np o : glue_copy CM WM SM SQ SC o <> Panic.
     Proof. destruct o; discriminate. Qed.
 
+    (* uses ensure_ordered(true) *)
     Lemma glue_dist_np s : glue_dist K s <> Panic.
-    Proof. unfold glue_dist. destruct (ordered_ok _ _); repeat step. Qed.
-
-    (* no step of any history ends in a PanicException *)
-    Lemma run_call_np st c : fst (run_call K st c) <> Done _ _ _ _ _ Panic.
     Proof.
+      unfold glue_dist. destruct (ordered_ok _ _) eqn:Ho; [|discriminate].
+      apply obind_np; [|discriminate]. apply liftp_np. apply (cg_dist_sf _ _ _ CG). exact Ho.
+    Qed.
+
+    (* the labels of the scoring matrices and sequences of a state agree with the values *)
+    Definition st_typed (st : state CM WM SM SQ SC) : Prop :=
+      forall n o, lookup _ _ _ _ _ st n = Some o ->
+        match o with
+        | OScoring _ _ _ _ _ a s => sm_ty s a
+        | OSeq _ _ _ _ _ a q => sq_ty q a
+        | _ => True
+        end.
+
+    (* no call made in a well-labelled state ends in a PanicException *)
+    Lemma run_call_np st c : st_typed st -> fst (run_call K st c) <> Done _ _ _ _ _ Panic.
+    Proof.
+      intros Hty.
       assert (Hstore : forall st dst (o : outcome (obj CM WM SM SQ SC)),
                  o <> Panic -> fst (store CM WM SM SQ SC st dst o) <> Done _ _ _ _ _ Panic).
       { intros st0 dst o Ho. destruct o; simpl; try discriminate. congruence. }
@@ -628,11 +774,12 @@ Section WithCore.
       - destruct (lookup _ _ _ _ _ st self) as [[]|]; try discriminate. apply Hstore, glue_log_odds_np.
       - apply Hstore, glue_scoring_init_np.
       - apply Hstore, glue_stripe_np.
-      - destruct (lookup _ _ _ _ _ st self) as [[]|]; try discriminate.
+      - destruct (lookup _ _ _ _ _ st self) as [[]|] eqn:Eself; try discriminate.
         destruct sequence; try (apply Hstore; discriminate).
-        destruct (lookup _ _ _ _ _ st slot) as [[]|]; try discriminate; try (apply Hstore; discriminate).
+        destruct (lookup _ _ _ _ _ st slot) as [[]|] eqn:Eslot; try discriminate; try (apply Hstore; discriminate).
         destruct (glue_calculate K a s a0 q) as [o q'] eqn:E. apply Hstore.
-        replace o with (fst (glue_calculate K a s a0 q)) by (rewrite E; reflexivity). apply glue_calculate_np.
+        replace o with (fst (glue_calculate K a s a0 q)) by (rewrite E; reflexivity).
+        apply glue_calculate_np; [exact (Hty _ _ Eself) | exact (Hty _ _ Eslot)].
       - destruct (lookup _ _ _ _ _ st self) as [[]|]; try discriminate. apply Hdone, glue_threshold_np.
       - destruct (lookup _ _ _ _ _ st self) as [[]|]; try discriminate. apply Hdone, glue_max_np.
       - destruct (lookup _ _ _ _ _ st self) as [[]|]; try discriminate. apply Hdone, glue_argmax_np.
@@ -642,11 +789,12 @@ Section WithCore.
       - destruct (lookup _ _ _ _ _ st self) as [[]|]; try discriminate. apply Hstore, glue_revcomp_np.
       - destruct pssm, sequence; try (apply Hstore; discriminate);
           try (destruct (lookup _ _ _ _ _ st slot) as [[]|]; try discriminate; apply Hstore; discriminate).
-        destruct (lookup _ _ _ _ _ st slot) as [[]|]; destruct (lookup _ _ _ _ _ st slot0) as [[]|];
+        destruct (lookup _ _ _ _ _ st slot) as [[]|] eqn:Eslot; destruct (lookup _ _ _ _ _ st slot0) as [[]|] eqn:Eslot0;
           try discriminate; try (apply Hstore; discriminate).
         destruct (glue_scan_args thr bs) as [[t b]|e|] eqn:Ea.
         + destruct (glue_scan K a s a0 q t b) as [o q'] eqn:E. apply Hstore.
-          replace o with (fst (glue_scan K a s a0 q t b)) by (rewrite E; reflexivity). apply glue_scan_np.
+          replace o with (fst (glue_scan K a s a0 q t b)) by (rewrite E; reflexivity).
+          apply glue_scan_np; [exact (Hty _ _ Eslot) | exact (Hty _ _ Eslot0) | eapply glue_scan_args_block; exact Ea].
         + apply Hstore; discriminate.
         + exfalso. eapply glue_scan_args_np; eauto.
       - destruct (lookup _ _ _ _ _ st self) as [[]|]; try discriminate.
